@@ -29,6 +29,7 @@ type Engine struct {
 	funcs   map[*ssa.Function]int
 	needPow2 bool
 	bigPtr   types.Type // *math/big.Int when some loaded package imports math/big
+	curTypeParams map[string]*types.TypeParam // type parameters of the function under verification, by name
 	srcCache map[string][]string
 	repo    string
 	specUses map[*VC]map[string]bool
@@ -179,14 +180,31 @@ func (eng *Engine) tagOf(t types.Type) int {
 		id = len(eng.tags) + 1
 		eng.tags[k] = id
 		eng.tagTypes[k] = t
+		if os.Getenv("GOVC_DEBUG_TAGS") != "" {
+			fmt.Fprintf(os.Stderr, "tag %d = %s\n", id, k)
+		}
 	}
 	return id
 }
 
 func (eng *Engine) tagByName(name string) (int, bool) {
-	for k, id := range eng.tags {
-		if k == name || strings.HasSuffix(k, "/"+name) || strings.HasSuffix(k, "."+name) {
-			return id, true
+	{
+		nStar := strings.HasPrefix(name, "*")
+		nb := strings.TrimPrefix(name, "*")
+		best, bestK := 0, ""
+		for k, id := range eng.tags {
+			if strings.HasPrefix(k, "*") != nStar {
+				continue
+			}
+			kb := strings.TrimPrefix(k, "*")
+			if kb == nb || strings.HasSuffix(kb, "/"+nb) || strings.HasSuffix(kb, "."+nb) {
+				if bestK == "" || k < bestK {
+					best, bestK = id, k
+				}
+			}
+		}
+		if bestK != "" {
+			return best, true
 		}
 	}
 	if obj := types.Universe.Lookup(name); obj != nil {
@@ -216,8 +234,34 @@ func (eng *Engine) tagByName(name string) (int, bool) {
 		if scope == nil {
 			continue
 		}
+		var targs []types.Type
+		if b := strings.Index(tn, "["); b > 0 && strings.HasSuffix(tn, "]") {
+			// instantiated generic type: arguments are type parameters of the function under verification
+			// (by name) or predeclared types
+			for _, an := range strings.Split(tn[b+1:len(tn)-1], ",") {
+				an = strings.TrimSpace(an)
+				var at types.Type
+				if tp, ok := eng.curTypeParams[an]; ok {
+					at = tp
+				} else if o := types.Universe.Lookup(an); o != nil {
+					at = o.Type()
+				}
+				if at == nil {
+					return 0, false
+				}
+				targs = append(targs, at)
+			}
+			tn = tn[:b]
+		}
 		if obj := scope.Lookup(tn); obj != nil {
 			t := obj.Type()
+			if len(targs) > 0 {
+				it, err := types.Instantiate(nil, t, targs, false)
+				if err != nil {
+					return 0, false
+				}
+				t = it
+			}
 			if star {
 				t = types.NewPointer(t)
 			}
@@ -250,6 +294,13 @@ func (eng *Engine) box(vc *VC, t types.Type, comps []string) []string {
 		vc.declFun(un, []Sort{SInt}, s)
 		vc.assert(sEq(app(un, ref), comps[i]))
 	}
+	if len(comps) > 0 {
+		// unboxing this very box (same dynamic type) yields the components, syntactically
+		if vc.boxComps == nil {
+			vc.boxComps = map[string][]string{}
+		}
+		vc.boxComps[fmt.Sprintf("%d:%s", tag, ref)] = comps
+	}
 	if _, isSlice := t.Underlying().(*types.Slice); isSlice && len(comps) == 4 {
 		// dynlen(x): length of the slice held by an interface value
 		vc.declFun("dynlen", []Sort{SInt}, SInt)
@@ -264,6 +315,9 @@ func (eng *Engine) unbox(vc *VC, t types.Type, ref string) []string {
 		return []string{vc.fresh("unboxed", "BigArr")}
 	}
 	lay := eng.lay.layout(t)
+	if cs, ok := vc.boxComps[fmt.Sprintf("%d:%s", tag, ref)]; ok && len(cs) == len(lay) {
+		return append([]string{}, cs...)
+	}
 	out := make([]string, len(lay))
 	for i, s := range lay {
 		un := fmt.Sprintf("unbox!%d!%d", tag, i)
@@ -428,6 +482,12 @@ func (eng *Engine) verifyFunc(fn *ssa.Function, con *Contract, mode string) *VC 
 	if mode != "" && mode != "plain" {
 		name += "[" + mode + "]"
 	}
+	eng.curTypeParams = map[string]*types.TypeParam{}
+	if tps := fn.TypeParams(); tps != nil {
+		for i := 0; i < tps.Len(); i++ {
+			eng.curTypeParams[tps.At(i).Obj().Name()] = tps.At(i)
+		}
+	}
 	vc := newVC(eng, name)
 	fr := &Frame{vc: vc, eng: eng, fn: fn, con: con, top: true, regs: map[ssa.Value][]string{}, clos: map[ssa.Value]*closureInfo{}, mode: mode}
 	vc.declConst("brk0", SInt)
@@ -549,6 +609,9 @@ func (eng *Engine) verifyFunc(fn *ssa.Function, con *Contract, mode string) *VC 
 				vc.assert(sImp(rt.reach, g))
 				vc.assumptions["lemma instance (trusted) in "+name+": "+c.Text] = true
 			}
+		}
+		for _, d := range fr.deferredPre {
+			vc.oblig(d.name, fmt.Sprintf("@ret%d", ri), sAnd(rt.reach, d.reach), d.goal, d.pos, d.props, d.text)
 		}
 		for ci, c := range con.Ensures {
 			g, err := env.evalBool(c.E)
